@@ -109,12 +109,13 @@ type CallPlan struct {
 	HPanic              *PanicPlan
 	KeepReceiving       bool   // bidi handler: keep calling Receive after a non-EOF error
 	ReuseRequestOf      string // unary: send the very connect.Request object of that earlier call again
-	InterceptDeadline   bool   // Deadline is set by a client interceptor; the caller\'s own context has CallerDeadline (0: none)
+	InterceptDeadline   bool   // Deadline is set by a client interceptor; the caller's own context has CallerDeadline (0: none)
 	CallerDeadline      time.Duration
-	InterceptorErr      bool // the plan's error is returned by the outermost handler interceptor, user code never runs
-	InterceptorErrAfter bool // client-stream: the outermost handler interceptor returns the plan\'s error after the handler has sent its response
-	CloseTwice          bool // server-stream client calls Close twice
-	clientLimit         bool // C14: the call ends on the client's own read limit
+	PreSendSleep        time.Duration // the caller creates the stream, then waits this long before its first Send / CloseRequest
+	InterceptorErr      bool          // the plan's error is returned by the outermost handler interceptor, user code never runs
+	InterceptorErrAfter bool          // client-stream: the outermost handler interceptor returns the plan\'s error after the handler has sent its response
+	CloseTwice          bool          // server-stream client calls Close twice
+	clientLimit         bool          // C14: the call ends on the client's own read limit
 	panicAfterCtx       bool
 	ReturnSendErr       bool     // the handler returns the error of a failed Send (as handlers do)
 	RecoverErr          *ErrPlan // what the WithRecover function returns
